@@ -163,6 +163,11 @@ type secret struct {
 }
 
 type docModel struct {
+	// unsure: register fields whose current value the sequential model does not know: the key-less node
+	// wrote them (a clear commit, concurrent in its field clock with the encrypted ones) and no key
+	// holder has written them since. keylessWrote: fields the key-less node has a value of its own for.
+	unsure       map[string]bool
+	keylessWrote map[string]bool
 	spec    DocSpec
 	id      string
 	vals    map[string]Val // registers: last written value (K=null for null)
@@ -178,6 +183,8 @@ type runner struct {
 	docs    []*docModel
 	secrets []*secret
 	stores  []*encFaultStore
+	// keylessBlocks: block-store keys of the commits the key-less node wrote itself
+	keylessBlocks map[string]bool
 	// next[k] = index into cl.Msgs of the first message not yet delivered to node k
 	next  [3]int
 	stats runStats
@@ -199,6 +206,9 @@ type runStats struct {
 	secretsSearched       int
 	deniedFields          int
 	skippedAfterDelete    int
+	keylessWrites         int // the key-less node wrote a field-level encrypted field (clear commit)
+	keylessWriteRefused   int
+	holderWriteAboveClear int // a key holder wrote such a field after merging the clear commit
 	keylessDocsInvisible  int
 	keylessFieldsNull     int
 	keyFaultSteps         int // writes attempted while the writer's key store was unavailable
@@ -260,7 +270,7 @@ func run(c Case) (*hx.Failure, runStats) {
 	if len(c.Docs) == 0 {
 		hx.Harnessf("case without documents")
 	}
-	r := &runner{c: c}
+	r := &runner{c: c, keylessBlocks: map[string]bool{}}
 	r.cl, r.stores = newFaultCluster(3, sdl(c.Branchable))
 	defer r.cl.Close()
 	r.kms = startKMS(r.cl)
@@ -287,6 +297,8 @@ func (r *runner) steps() *hx.Failure {
 			f = r.update(oi, op, d)
 		case "delete":
 			f = r.delete(oi, op, d)
+		case "kwrite":
+			f = r.keylessWrite(oi, op, d)
 		case "deliver":
 			to := op.Node
 			if to != holder && to != keyless {
@@ -337,7 +349,7 @@ func gqlInput(set []FieldVal) string {
 func (r *runner) create(di int) *hx.Failure {
 	spec := r.c.Docs[di]
 	n := r.cl.Nodes[creator]
-	d := &docModel{spec: spec, vals: map[string]Val{}}
+	d := &docModel{spec: spec, vals: map[string]Val{}, unsure: map[string]bool{}, keylessWrote: map[string]bool{}}
 	encDoc := spec.Mode == "doc" || spec.Mode == "both"
 	var encFields []string
 	if spec.Mode == "fields" || spec.Mode == "both" {
@@ -422,6 +434,9 @@ func showSet(set []FieldVal) string {
 func (r *runner) apply(di int, d *docModel, set []FieldVal, op string, writer int) {
 	for _, fv := range set {
 		enc := d.spec.encrypted(fv.F)
+		if op == "update" && enc && d.unsure[fv.F] {
+			r.stats.holderWriteAboveClear++
+		}
 		if op == "update" && enc {
 			switch {
 			case !d.spec.createdWith(fv.F):
@@ -442,6 +457,9 @@ func (r *runner) apply(di int, d *docModel, set []FieldVal, op string, writer in
 			d.hasPN = true
 		default:
 			d.vals[fv.F] = fv.V
+			// the writer had merged everything (causal hand-over), so its write is above every head of
+			// the field, the key-less node's included
+			delete(d.unsure, fv.F)
 		}
 		if fv.V.K != "null" && len(fv.V.needles()) > 0 {
 			r.secrets = append(r.secrets, &secret{doc: di, field: fv.F, val: fv.V, op: op, writer: writer, enc: enc})
@@ -637,6 +655,57 @@ func (r *runner) update(oi int, op Op, d *docModel) *hx.Failure {
 	}
 	r.apply(di, d, set, "update", w)
 	return r.afterWrite(w, "update")
+}
+
+// keylessWrite: the node without keys writes a field that is encrypted field by field (it sees the
+// document with that field null). Its commit is necessarily a clear one - it has no key - and is
+// not a secret of anybody; what the property demands is that the key holders, once they have merged
+// it, keep encrypting THEIR later writes of the field although one of its heads is now clear.
+func (r *runner) keylessWrite(oi int, op Op, d *docModel) *hx.Failure {
+	if d.deleted || d.spec.Mode != "fields" || len(op.Set) == 0 {
+		return nil
+	}
+	fv := op.Set[0]
+	if !d.spec.encrypted(fv.F) || isCounter(fv.F) || fv.V.K == "null" {
+		return nil
+	}
+	if f := r.syncNode(keyless); f != nil {
+		return f
+	}
+	before := map[string]bool{}
+	for _, kv := range snapshot(r.cl.Nodes[keyless]) {
+		if under(kv, blocksPrefix) {
+			before[string(kv.K)] = true
+		}
+	}
+	defer func() {
+		for _, kv := range snapshot(r.cl.Nodes[keyless]) {
+			if under(kv, blocksPrefix) && !before[string(kv.K)] {
+				r.keylessBlocks[string(kv.K)] = true
+			}
+		}
+	}()
+	di := op.Doc % len(r.docs)
+	r.logf("n%d (key-less) update d%d %s", keyless, di, showSet([]FieldVal{fv}))
+	errText, f := r.doUpdate(keyless, d, []FieldVal{fv}, op.Route)
+	if f != nil {
+		return f
+	}
+	if errText != "" {
+		// a key-less node may be refused; then nothing may have been announced
+		if msgs := r.cl.Collect(keyless); len(msgs) > 0 {
+			return r.failf("C11/keyless-write/error-but-event", "update of d%d.%s on the key-less node failed (%s) but announced %d commits", di, fv.F, errText, len(msgs))
+		}
+		r.stats.keylessWriteRefused++
+		return nil
+	}
+	if msgs := r.cl.Collect(keyless); len(msgs) == 0 {
+		hx.Harnessf("update on the key-less node produced no update notification")
+	}
+	r.stats.keylessWrites++
+	d.unsure[fv.F] = true
+	d.keylessWrote[fv.F] = true
+	return r.checkKeyless("after its own write")
 }
 
 func (r *runner) delete(oi int, op Op, d *docModel) *hx.Failure {
@@ -856,6 +925,9 @@ func (r *runner) checkShared(k int, when string) *hx.Failure {
 			if d.id != string(blk.Delta.GetDocID()) || !d.spec.encrypted(field) || blk.Encryption != nil {
 				continue
 			}
+			if r.keylessBlocks[string(kv.K)] {
+				continue // written by the node that has no key: necessarily clear, nobody's secret
+			}
 			desc := fmt.Sprintf("n%d (%s): the commit %q of encrypted field %s of d%d (mode %s, height %d) carries no link to a key block: its delta is stored and served in clear",
 				k, when, kv.K, field, di, d.spec.Mode, blk.Delta.GetPriority())
 			if sig := r.explainsLateFirstWrite(&secret{doc: di, field: field, op: "update"}, blk); sig != "" {
@@ -1020,7 +1092,14 @@ func (r *runner) readback(k int, when string) *hx.Failure {
 			return r.failf("C11/readback/"+role+"/deleted-flag", "n%d (%s): d%d _deleted=%v, model says %v", k, when, di, row["_deleted"], d.deleted)
 		}
 		for _, f := range allFields {
+			if d.unsure[f] {
+				continue
+			}
 			denied := k == holder && d.spec.denied(f)
+			if denied && d.keylessWrote[f] {
+				// without the key node 1 keeps reading the clear value the key-less node wrote
+				continue
+			}
 			var want Val
 			switch {
 			case denied:
@@ -1108,6 +1187,9 @@ func (r *runner) checkKeyless(when string) *hx.Failure {
 				continue
 			}
 			for _, f := range d.spec.EncFields {
+				if d.keylessWrote[f] {
+					continue // its own value
+				}
 				if row[f] != nil {
 					return r.failf("C11/keyless-node-returns-encrypted-field", "n2 (%s) returns d%d.%s = %s", when, di, f, hx.Canon(row[f]))
 				}
